@@ -56,17 +56,22 @@ def lastDfAfter (settle : Int) : List (Int × ℝ) → ℝ → ℝ
   | [], dflt => dflt
   | (d, df) :: rest, dflt => lastDfAfter settle rest (if d > settle then df else dflt)
 
-/-- the coupon loop of `dirty_price_from_discount_curve` is a sum (any schedule length) -/
-theorem curveLoop_eq_sum_aux (settle : Int) (cf : ℝ) (l : List (Int × ℝ)) (px df : ℝ) :
-    curveLoop settle cf l (px, df) = (px + flowSum settle cf l, lastDfAfter settle l df) := by
+/-- after the next coupon date `d0` (all remaining dates later than it) the loop of
+`dirty_price_from_discount_curve` just adds `cf·df` for the dates after settlement -/
+theorem curveLoop_after_next (settle d0 : Int) (cf pay : ℝ) (l : List (Int × ℝ)) (px df : ℝ)
+    (hl : ∀ x ∈ l, d0 < x.1) :
+    curveLoop settle cf pay (some d0) l (px, df) = (px + flowSum settle cf l, lastDfAfter settle l df) := by
   induction l generalizing px df with
   | nil => simp [curveLoop, flowSum, lastDfAfter]
   | cons h t ih =>
     obtain ⟨d, dfd⟩ := h
+    have hne : ¬ (some d0 = some d) := by
+      have := hl (d, dfd) (by simp); simp; omega
+    have ht : ∀ x ∈ t, d0 < x.1 := fun x hx => hl x (by simp [hx])
     by_cases hd : d > settle
-    · simp only [curveLoop, if_pos hd, ih, flowSum, lastDfAfter]
+    · simp only [curveLoop, if_pos hd, if_neg hne, ih _ _ ht, flowSum, lastDfAfter]
       congr 1; ring
-    · simp only [curveLoop, if_neg hd, ih, flowSum, lastDfAfter]
+    · simp only [curveLoop, if_neg hd, ih _ _ ht, flowSum, lastDfAfter]
       congr 1; ring
 
 theorem lastDfAfter_eq_lastDf (settle : Int) (l : List (Int × ℝ)) (dflt : ℝ)
@@ -103,6 +108,35 @@ theorem curveFlows_noexdiv (settle : Int) (cf : ℝ) (l : List (Int × ℝ)) (se
     obtain ⟨d, dfd⟩ := h
     by_cases hd : d > settle <;> simp [curveFlows, flowSum, hd, ih]
 
+
+/-- the coupon loop of `dirty_price_from_discount_curve` (any schedule length, increasing dates): it adds
+`cf·df` for the dates after settlement, except that the NEXT coupon is multiplied by `pay_first_cpn` -/
+theorem curveLoop_eq_flows (settle : Int) (exDiv : Bool) (cf : ℝ) (l : List (Int × ℝ)) (px df : ℝ)
+    (hs : (l.map (·.1)).Pairwise (· < ·)) :
+    curveLoop settle cf (payFirst exDiv) ((l.map (·.1)).find? (fun d => decide (d > settle))) l (px, df)
+      = (px + curveFlows settle exDiv cf l false, lastDfAfter settle l df) := by
+  induction l generalizing px df with
+  | nil => simp [curveLoop, curveFlows, lastDfAfter]
+  | cons h t ih =>
+    obtain ⟨d, dfd⟩ := h
+    have hp : (∀ a' ∈ t.map (·.1), d < a') ∧ (t.map (·.1)).Pairwise (· < ·) := by
+      have : (d :: t.map (·.1)).Pairwise (· < ·) := by simpa using hs
+      exact List.pairwise_cons.mp this
+    by_cases hd : d > settle
+    · have hfind : (((d, dfd) :: t).map (·.1)).find? (fun d => decide (d > settle)) = some d := by
+        simp [hd]
+      have ht : ∀ x ∈ t, d < x.1 := by
+        intro x hx; exact hp.1 x.1 (List.mem_map.mpr ⟨x, hx, rfl⟩)
+      rw [hfind]
+      simp only [curveLoop, if_pos hd, if_true, curveLoop_after_next settle d cf _ t _ _ ht, curveFlows,
+        lastDfAfter, curveFlows_seen]
+      cases exDiv <;> simp [payFirst] <;> ring
+    · have hfind : (((d, dfd) :: t).map (·.1)).find? (fun d => decide (d > settle))
+          = (t.map (·.1)).find? (fun d => decide (d > settle)) := by
+        simp [hd]
+      rw [hfind]
+      simp only [curveLoop, if_neg hd, curveFlows, lastDfAfter]
+      exact ih _ _ hp.2
 
 theorem ncdGo_spec (settle : Int) (l : List Int) (i j : Nat) (h : ncdGo settle i l = some j) :
     i ≤ j ∧ j - i < l.length ∧ (∀ d ∈ l[j - i]?, d > settle) ∧ ∀ k, k < j - i → ∀ d ∈ l[k]?, d ≤ settle := by
